@@ -29,6 +29,19 @@ expl("C07", "runtime monitoring: metamorphic oracle (composed vs staged real exe
 expl("C08", "runtime monitoring: metamorphic oracle (nested result vs per-inner-array real executions; mix=> vs concatenation)",
      "Held on every generated multi-dimensional FROM query explored (depth 2..3, ragged, empty inner arrays).")
 
+expl("C09", "runtime monitoring: differential oracle (reference selector evaluator written from the README grammar) + totality/doc-unchanged monitor on arbitrary byte strings",
+     "Held on every generated (document, selector) explored: value and error-ness agree with the documented meaning (cold and warm parse cache), never a panic, document unchanged; arbitrary byte strings: totality only.")
+CHECKS["C15"] = ("exploration", "runtime monitoring over an exhaustively enumerated finite domain: exact rational order oracle, reflexivity, antisymmetry, transitivity on the real compare.Compare",
+     "All ordered pairs of a representative boundary-value domain across every Go numeric type and strings are enumerated (exhaustive over that stated finite domain, not over all values); same-kind triples exhaustively in the thorough tier, sampled in quick.", TRUST, "DESIGN.md §6 C15")
+expl("C16", "runtime monitoring: AST-shape oracle using the library's own parser + echo / row-level end-to-end injection monitors",
+     "Held on every generated (template, arguments) explored: same statement shape as the template with sentinel literals, exact echo, exact filter, static text untouched, errors (not panics) for missing/unused/$0.")
+expl("C17", "runtime monitoring: metamorphic oracle (option + matching or neutral spelling vs canonical spelling) + echo of literals/aliases/arrays",
+     "Held on every generated query explored under all 2^3 option sets.")
+expl("C18", "runtime monitoring: per-function reference implementations compared with real `SELECT f(args)` executions (value and error-ness)",
+     "Held on every generated (function, arguments) explored; CONCAT with NULL arguments is an open known finding (quarantined, witness re-run on every check).")
+expl("C20", "runtime monitoring: sequential per-key register model replayed against real query histories sharing one variable map",
+     "Held on every generated history (1..4 queries, 1..4 keys) explored: GETVAR values, no SETVAR column, caller's map after each Exec.")
+
 def main():
     props = [json.loads(l) for l in open(os.path.join(ROOT, "properties.jsonl"))]
     hooks_commits = []
